@@ -3,6 +3,7 @@ package nc
 import (
 	"fmt"
 	"go/ast"
+	"go/constant"
 	"go/token"
 	"go/types"
 	"strings"
@@ -192,6 +193,7 @@ func (c *Ctx) afterEdges(o *Origins, from map[Edge]bool, cond *Cond) (bool, stri
 	}
 	n := 0
 	for e := range from {
+		cut := forcedByEntry(e, cut)
 		for _, r := range o.SuccessReturns() {
 			if reach, _ := Reach(Point{e.To(), 0}, PointOf(r), NewCut()); !reach {
 				continue
@@ -203,6 +205,84 @@ func (c *Ctx) afterEdges(o *Origins, from map[Edge]bool, cond *Cond) (bool, stri
 		}
 	}
 	return true, "", n
+}
+
+// forcedByEntry: a block entered over the edge e may start with phis that take a boolean constant on that
+// edge (the join of a short-circuit `a || b` kept in a local); a branch on such a phi has one feasible
+// side for a walk that starts on e. The other side is added to a copy of the cut, as long as the
+// branch cannot be reached a second time from the side taken.
+func forcedByEntry(e Edge, cut *Cut) *Cut {
+	if e.Succ < 0 {
+		return cut
+	}
+	known := map[ssa.Value]bool{}
+	out := cut
+	cur := e
+	for steps := 0; steps < 8; steps++ {
+		t := cur.To()
+		pi := -1
+		for i, p := range t.Preds {
+			if p == cur.From {
+				if pi >= 0 {
+					return out // both sides of a branch lead here: the edge does not identify the phi input
+				}
+				pi = i
+			}
+		}
+		if pi < 0 || len(t.Instrs) == 0 {
+			return out
+		}
+		for _, in := range t.Instrs {
+			phi, ok := in.(*ssa.Phi)
+			if !ok {
+				break
+			}
+			switch v := phi.Edges[pi].(type) {
+			case *ssa.Const:
+				if v.Value != nil && v.Value.Kind() == constant.Bool {
+					known[phi] = constant.BoolVal(v.Value)
+				}
+			default:
+				if b, ok := known[v]; ok {
+					known[phi] = b
+				}
+			}
+		}
+		ifi, ok := t.Instrs[len(t.Instrs)-1].(*ssa.If)
+		if !ok {
+			return out
+		}
+		val, ok := known[ifi.Cond]
+		if !ok {
+			if un, isNot := ifi.Cond.(*ssa.UnOp); isNot && un.Op == token.NOT {
+				if b, ok2 := known[un.X]; ok2 {
+					val, ok = !b, true
+				}
+			}
+		}
+		if !ok {
+			return out
+		}
+		taken, other := 0, 1
+		if !val {
+			taken, other = 1, 0
+		}
+		if back, _ := Reach(Point{t.Succs[taken], 0}, Point{t, 0}, NewCut()); back {
+			return out
+		}
+		if out == cut {
+			out = NewCut()
+			for k := range cut.Edges {
+				out.Edges[k] = true
+			}
+			for k := range cut.Barriers {
+				out.Barriers[k] = true
+			}
+		}
+		out.Edges[Edge{t, other}] = true
+		cur = Edge{t, taken}
+	}
+	return out
 }
 
 func rulesC05(c *Ctx) {
